@@ -21,9 +21,9 @@ Theorem admin_readonly w r :
 Proof.
   intros Hr. cbv zeta. unfold admin_step. destruct w as [d l m a n].
   destruct r as [p|p| | |[t|]|]; cbn [admin_prog reset_calls w_mem w_active w_db w_ln].
-  - sx. repeat split.
-  - sx. repeat split.
-  - sx. repeat split.
+  - sx. destruct (sum_view _); sx; repeat split.
+  - sx. destruct (sum_view _); sx; repeat split.
+  - sx. destruct (sum_view _); sx; [|repeat split]. destruct (sum_view _); sx; repeat split.
   - sx. repeat split.
   - cbn [is_rotation] in Hr. destruct (atoi t) as [fee|]; [|sx; repeat split].
     destruct (fee <? 0); [sx; repeat split|discriminate Hr].
@@ -53,30 +53,51 @@ Proof.
   destruct (fee <? 0); [intros _; destruct w; reflexivity|discriminate].
 Qed.
 
-(* total_balance of the admin RPC: the two views, their totals, and as circulation exactly what Mint.TotalBalance returns *)
+Lemma sum_view_inv v v' : sum_view v = ROk v' -> v' = v.
+Proof. unfold sum_view. destruct (existsb _ v); [discriminate|]. intros H. injection H as <-. reflexivity. Qed.
+
+(* total_balance of the admin RPC: the two views, their totals, and as circulation exactly what Mint.TotalBalance returns; when a
+   view cannot be computed (a keyset's total does not fit an int64) both fail *)
 Theorem admin_total_is_total_balance w :
-  exists iss red,
-    admin_step w ATotal = (fst (admin_step w ATotal), ATotals iss (sum64 (map snd iss)) red (sum64 (map snd red)) (sub64 (sum64 (map snd iss)) (sum64 (map snd red)))) /\
-    snd (run total_balance no_fault (reset_calls w)) = Done (Ok (sub64 (sum64 (map snd iss)) (sum64 (map snd red)))) /\
-    tsum (map snd iss) = issued_total (w_db w) /\ tsum (map snd red) = redeemed_total (w_db w).
+  match snd (admin_step w ATotal) with
+  | ATotals iss ti red tr c =>
+      ti = sum64 (map snd iss) /\ tr = sum64 (map snd red) /\ c = sub64 ti tr /\
+      snd (run total_balance no_fault (reset_calls w)) = Done (Ok c) /\
+      tsum (map snd iss) = issued_total (w_db w) /\ tsum (map snd red) = redeemed_total (w_db w)
+  | AErr code cls => code = -32000 /\ cls = 5 /\ snd (run total_balance no_fault (reset_calls w)) = Done (Err EDb)
+  | _ => False
+  end.
 Proof.
-  unfold admin_step, total_balance. destruct w as [d l m a n]. cbn [admin_prog reset_calls w_mem w_active]. sx.
-  eexists _, _. split; [reflexivity|]. split; [reflexivity|]. split; [apply issued_view_total|apply redeemed_view_total].
+  unfold admin_step, total_balance. destruct w as [d l m a n]. cbn [admin_prog reset_calls w_mem w_active w_db]. sx.
+  destruct (sum_view (sum_by_ks (map (fun s => (s_ks s, s_amount s)) (d_sigs d)) [])) as [iss|] eqn:Ei; sx; [|repeat split].
+  destruct (sum_view (sum_by_ks (map (fun r => (r_ks r, r_amount r)) (d_spent d)) [])) as [red|] eqn:Er; sx; [|repeat split].
+  apply sum_view_inv in Ei, Er. subst iss red.
+  repeat split; [apply issued_view_total|apply redeemed_view_total].
 Qed.
 
 (* issued_ecash / redeemed_ecash without a parameter list the per-keyset view, which adds up to the table *)
 Theorem admin_issued_view w :
-  exists rows, snd (admin_step w (AIssued None)) = AAll rows (sum64 (map snd rows)) /\ tsum (map snd rows) = issued_total (w_db w).
+  match snd (admin_step w (AIssued None)) with
+  | AAll rows t => t = sum64 (map snd rows) /\ tsum (map snd rows) = issued_total (w_db w)
+  | AErr code cls => code = -32000 /\ cls = 5
+  | _ => False
+  end.
 Proof.
-  unfold admin_step. destruct w as [d l m a n]. cbn [admin_prog reset_calls w_mem w_active]. sx.
-  eexists. split; [reflexivity|apply issued_view_total].
+  unfold admin_step. destruct w as [d l m a n]. cbn [admin_prog reset_calls w_mem w_active w_db]. sx.
+  destruct (sum_view (sum_by_ks (map (fun s => (s_ks s, s_amount s)) (d_sigs d)) [])) as [rows|] eqn:Ei; sx; [|split; reflexivity].
+  apply sum_view_inv in Ei. subst rows. split; [reflexivity|apply issued_view_total].
 Qed.
 
 Theorem admin_redeemed_view w :
-  exists rows, snd (admin_step w (ARedeemed None)) = AAll rows (sum64 (map snd rows)) /\ tsum (map snd rows) = redeemed_total (w_db w).
+  match snd (admin_step w (ARedeemed None)) with
+  | AAll rows t => t = sum64 (map snd rows) /\ tsum (map snd rows) = redeemed_total (w_db w)
+  | AErr code cls => code = -32000 /\ cls = 5
+  | _ => False
+  end.
 Proof.
-  unfold admin_step. destruct w as [d l m a n]. cbn [admin_prog reset_calls w_mem w_active]. sx.
-  eexists. split; [reflexivity|apply redeemed_view_total].
+  unfold admin_step. destruct w as [d l m a n]. cbn [admin_prog reset_calls w_mem w_active w_db]. sx.
+  destruct (sum_view (sum_by_ks (map (fun r => (r_ks r, r_amount r)) (d_spent d)) [])) as [rows|] eqn:Ei; sx; [|split; reflexivity].
+  apply sum_view_inv in Ei. subst rows. split; [reflexivity|apply redeemed_view_total].
 Qed.
 
 (* ---------- histories that contain admin requests ---------- *)
